@@ -32,6 +32,7 @@ func init() {
 		Rules: []Rule{
 			{Name: "PAIR/version-bump", Min: 2, Run: ruleVersionBump, Doc: "content, version and update flag change together; initial load guarded"},
 			{Name: "CONF/handle-event", Min: 1, Run: ruleHandleEvent, Doc: "handleEvent conformance: stamp, apply, fan out; listed discards only"},
+			{Name: "WHO/handler-callers", Min: 3, Run: ruleHandlerCallers, Doc: "state-changing handlers reached only through handleEvent; full answers only for the matching kind"},
 			{Name: "CTX/guarded-by", Min: 30, Run: ruleGuardedBy, Doc: "cache state written by cache tasks under e.mu, read under it"},
 			{Name: "DOM/version-filter", Min: 1, Run: ruleVersionFilter, Doc: "version filter on delivery"},
 			{Name: "DOM/event-gate", Min: 1, Run: ruleEventGate, Doc: "processEvent only with the gate open; not-loaded discard; reaccess first"},
@@ -43,6 +44,8 @@ func init() {
 				{"server.Subscription.queueFlag", w("server.NewSubscription", "initial loading gate", "(*server.Subscription).queueEvents", "close", "(*server.Subscription).unqueueEvents", "open")},
 				{"rescache.ResourceSubscription.model", w("(*rescache.ResourceSubscription).handleEventChange", "copy-on-write update", "(*rescache.ResourceSubscription).processGetResponse", "initial load")},
 				{"rescache.ResourceSubscription.collection", w("(*rescache.ResourceSubscription).handleEventAdd", "copy-on-write", "(*rescache.ResourceSubscription).handleEventRemove", "copy-on-write", "(*rescache.ResourceSubscription).processGetResponse", "initial load")},
+				{"rescache.Model.data", w("(*rescache.Model).MarshalJSON", "encoding of the latest protocol, cached once")},
+				{"rescache.Collection.data", w("(*rescache.Collection).MarshalJSON", "encoding of the latest protocol, cached once")},
 				{"rescache.ResourceSubscription.version", w("(*rescache.ResourceSubscription).handleEventAdd", "bump", "(*rescache.ResourceSubscription).handleEventRemove", "bump", "(*rescache.ResourceSubscription).handleEventChange", "bump", "(*rescache.ResourceSubscription).processGetResponse", "initial 0")},
 			}), Doc: "who may write version / gate / cache content"},
 		},
@@ -56,6 +59,7 @@ func init() {
 			{Name: "TYPESTATE/sub-state", Min: 5, Run: ruleStateTable("server.Subscription.state", subStateNames, subStateTable), Doc: "who may move a subscription into which state"},
 			{Name: "PAIR/rpc-resources", Min: 2, Run: ruleRPCResources, Doc: "populate, send, release"},
 			{Name: "DOM/ref-shapes", Min: 2, Run: ruleRefShapes, Doc: "ReleaseRPCResources / populateResources / removeCount / tryDelete shapes"},
+			{Name: "PAIR/gc-countdown", Min: 1, Run: ruleGCCountdown, Doc: "collector count-down discounts indirect and indirectsent together"},
 			{Name: "PROV/sent-flag", Min: 1, Run: ruleSentFlag, Doc: "sent-ness read before the state is overwritten"},
 			{Name: "PAIR/edge-sent-once", Min: 1, Run: ruleEdgeSentOnce, Doc: "indirectsent raised once per created edge"},
 			{Name: "PAIR/snapshot-current", Min: 1, Run: ruleSnapshotCurrent, Doc: "re-sendable resource has a current snapshot and a closed gate"},
@@ -77,6 +81,7 @@ func init() {
 		Rules: []Rule{
 			{Name: "FIFO/queues", Min: 7, Run: ruleFIFO(allQueues...), Doc: "queue update forms"},
 			{Name: "DOM/inch-send", Min: 1, Run: ruleInChSend, Doc: "worker woken only on the empty→non-empty transition"},
+			{Name: "CONF/worker-loop", Min: 2, Run: ruleWorkerLoops, Doc: "worker loops run every accepted task"},
 			{Name: "CONF/handle-event", Min: 1, Run: ruleHandleEvent, Doc: "handleEvent conformance"},
 			{Name: "CTX/conn", Min: 25, Run: ruleConfinement, Doc: "hand-off chain stays on the connection worker"},
 			{Name: "PAIR/version-bump", Min: 2, Run: ruleVersionBump, Doc: "version bump"},
@@ -94,6 +99,7 @@ func init() {
 			{Name: "TABLE/access", Min: 1, Run: ruleAccessTables, Doc: "decision lists of CanGet/CanCall"},
 			{Name: "DOM/verdict-store", Min: 1, Run: ruleVerdictStore, Doc: "verdict cached only for result or accessDenied"},
 			{Name: "DOM/invalidate", Min: 1, Run: ruleInvalidate, Doc: "cached verdict invalidated on every trigger"},
+			{Name: "DOM/token-fanout", Min: 1, Run: ruleTokenFanout, Doc: "every token event on a connection that had a token re-checks every subscription"},
 			{Name: "PAIR/direct-count", Min: 2, Run: rulePairDirect, Doc: "denied request leaves no direct subscription"},
 			{Name: "WHO/access", Min: 1, Run: ruleWho([]whoEntry{
 				{"server.Subscription.access", w("(*server.Subscription).handleReaccess", "clear", "(*server.Subscription).reaccess", "clear", "(*server.Subscription).loadAccess", "answer task")},
@@ -142,6 +148,8 @@ func init() {
 			{Name: "LIN/continuations", Min: 12, Run: linAll, Doc: "every linear continuation parameter is consumed exactly once on every full path"},
 			{Name: "LIN/drain", Min: 2, Run: ruleDrain, Doc: "pending callback slots cleared only after draining, or when the connection is gone"},
 			{Name: "PAIR/throttle-slot", Min: 1, Run: rulePairThrottle, Doc: "a governed request that is answered frees its throttle slot: requests waiting behind it (and the client requests depending on them) are not stranded"},
+			{Name: "PAIR/query-lock", Min: 1, Run: ruleQueryLock, Doc: "a failed query request releases its lock: requests queued behind it are answered"},
+			{Name: "CONF/worker-loop", Min: 2, Run: ruleWorkerLoops, Doc: "every accepted task (and the reply it carries) is run"},
 			{Name: "CTX/conn", Min: 25, Run: ruleConfinement, Doc: "continuations and replies on the connection worker"},
 		},
 	})
@@ -200,6 +208,7 @@ func init() {
 			{Name: "DOM/verdict-store", Min: 1, Run: ruleVerdictStore, Doc: "late access answers absorbed"},
 			{Name: "PAIR/throttle-slot", Min: 1, Run: rulePairThrottle, Doc: "a refused task does not strand a throttle slot"},
 			{Name: "CHAN/close-send", Min: 2, Run: ruleChanFor("server.wsConn.work"), Doc: "no send on the closed worker channel"},
+			{Name: "CONF/worker-loop", Min: 2, Run: ruleWorkerLoops, Doc: "tasks accepted before the close (late Loaded, releases) are still run"},
 		},
 	})
 
@@ -210,6 +219,7 @@ func init() {
 		Rules: []Rule{
 			{Name: "DOM/reset-protocol", Min: 1, Run: ruleResetProtocol, Doc: "re-fetch once per matching entry with its normalised query; flag protocol; visit base and queries"},
 			{Name: "CONF/handle-event", Min: 1, Run: ruleHandleEvent, Doc: "derived events go through handleEvent; state events dropped only while resetting"},
+			{Name: "WHO/handler-callers", Min: 3, Run: ruleHandlerCallers, Doc: "derived events (also delete on notFound) go through handleEvent; full answers only for the matching kind"},
 			{Name: "TABLE/reject-set", Min: 1, Run: ruleRejectSet(rejectSpecs()[2:]), Doc: "ParseResourcePattern rejects excluded characters"},
 			{Name: "DOM/valid-patterns", Min: 1, Run: ruleValidPatterns, Doc: "only valid patterns are matched; reset fields routed to their visitors"},
 			{Name: "PAIR/throttle-slot", Min: 1, Run: rulePairThrottle, Doc: "throttled re-fetch frees its slot"},
@@ -236,6 +246,7 @@ func init() {
 		Rules: []Rule{
 			{Name: "PROV/subject", Min: 5, Run: ruleSubjectProv, Doc: "subjects built from validated parts"},
 			{Name: "TABLE/reject-set", Min: 1, Run: ruleRejectSet(rejectSpecs()), Doc: "recognisers reject the excluded characters"},
+			{Name: "DOM/path-prefix", Min: 2, Run: rulePathPrefix, Doc: "HTTP path cut by the api prefix only after the prefix test"},
 		},
 	})
 
@@ -246,6 +257,7 @@ func init() {
 		Rules: []Rule{
 			{Name: "DOM/all-or-nothing", Min: 5, Run: ruleDecoders, Doc: "decoders return no data with an error"},
 			{Name: "DOM/index-kind-guard", Min: 4, Run: ruleIndexKindGuards, Doc: "decoded indexes bounded; content of the right kind"},
+			{Name: "WHO/handler-callers", Min: 3, Run: ruleHandlerCallers, Doc: "no handler or full answer applied to an unloaded / wrong-kind resource"},
 			{Name: "DOM/opt-deref", Min: 4, Run: ruleOptDeref, Doc: "optional decoded pointers dereferenced under their test"},
 			{Name: "CENSUS/panic", Min: 3, Run: rulePanicCensus, Doc: "explicit panics and unchecked assertions are the listed ones"},
 			{Name: "CHAN/close-send", Min: 3, Run: ruleChan, Doc: "no send on a closed channel"},
@@ -277,6 +289,7 @@ func init() {
 			{Name: "DOM/canonicalize", Min: 1, Run: ruleCanonicalize, Doc: "decoders canonicalise every meta they return"},
 			{Name: "DOM/gates", Min: 2, Run: ruleGates, Doc: "direct-response status ends the request"},
 			{Name: "DOM/origin", Min: 1, Run: ruleOrigin, Doc: "origin check before header auth and service requests"},
+			{Name: "DOM/ascii-fold", Min: 1, Run: ruleASCIIFold, Doc: "allow-list comparison folds ASCII case only"},
 		},
 	})
 
@@ -322,6 +335,8 @@ func init() {
 				{"server.Service.stop", w("(*server.Service).Stop", "cleared", "(*server.Service).start", "re-created")},
 				{"rescache.Cache.started", w("(*rescache.Cache).Start", "set", "(*rescache.Cache).Stop", "cleared")},
 				{"rescache.Cache.inCh", w("(*rescache.Cache).Start", "re-created per start")},
+				{"rescache.Cache.eventSubs", w("(*rescache.Cache).Start", "the cache index is re-created per start: nothing cached survives a stop")},
+				{"rescache.Cache.unsubQueue", w("(*rescache.Cache).Start", "re-created per start")},
 			}), Doc: "who may write the lifecycle flags"},
 		},
 	})
